@@ -31,6 +31,14 @@ StepFails(S, c, a, o) ==
      \cup (IF kind = "valid" /\ o.res[1] = "valid" /\ (o.raised = "InvalidNetworkError") # ~o.res[2][1] THEN {"c06.raises"} ELSE {})
      \cup (IF kind # "error" /\ o.res[1] # "error" /\ graphOk /\ (o.nodes # T.nodes \/ o.links # LinkIter(T)) THEN {"drift.order"} ELSE {})
 
+\* after a call that failed (as it should), the partial effects are not part of any verdict: continue from the OBSERVED graph
+FromObs(o) ==
+  LET E == [i \in DOMAIN o.links |-> <<o.links[i][1], o.links[i][2]>>]
+  IN [nodes |-> o.nodes, edges |-> E,
+      link |-> [e \in {E[i] : i \in DOMAIN E} |-> o.links[CHOOSE i \in DOMAIN E : E[i] = e][3]],
+      orig |-> [n \in {o.orig[i][1] : i \in DOMAIN o.orig} |-> o.orig[CHOOSE i \in DOMAIN o.orig : o.orig[i][1] = n][2]],
+      dest |-> [n \in {o.dest[i][1] : i \in DOMAIN o.dest} |-> o.dest[CHOOSE i \in DOMAIN o.dest : o.dest[i][1] = n][2]],
+      cache |-> [k \in Lookups |-> Absent]]
 RECURSIVE Walk(_, _, _, _)
 Walk(tr, i, S, acc) ==
   IF i > Len(tr.calls) THEN acc
@@ -39,7 +47,8 @@ Walk(tr, i, S, acc) ==
            f == StepFails(S, c, a, tr.obs[i])
            acc2 == acc \cup {<<i, x>> : x \in f}
        IN \* after a failing call the library's partial effects are not part of the verdict: resynchronise on the observation
-          IF \E x \in f : x \notin {"drift.order"} THEN acc2 ELSE Walk(tr, i + 1, a.S, acc2)
+          IF \E x \in f : x \notin {"drift.order"} THEN acc2
+          ELSE Walk(tr, i + 1, IF a.res[1] = "error" THEN FromObs(tr.obs[i]) ELSE a.S, acc2)
 
 Verdict(tr) == [id |-> tr.id, fails |-> Walk(tr, 1, EmptyState, {}), steps |-> Len(tr.calls)]
 
